@@ -30,7 +30,7 @@ Qed.
 (* ------------------------------------------------------------------------------------------ *)
 Theorem rewrite_valid : forall r p, Valid p -> applicable r p = true -> Valid (apply_rewrite r p).
 Proof.
-  intros r p HV HA. destruct r as [s|s|s|s x|s|s lbl|s x k].
+  intros r p HV HA. destruct r as [s|s|s|s x|s|s lbl|s x k|s x k y].
   - exact (swap_valid p s HV HA).
   - exact (rewrite_phrase_valid p (RNamed s) HV I HA).
   - exact (rewrite_phrase_valid p (RPositional s) HV I HA).
@@ -40,6 +40,10 @@ Proof.
     apply valid_b_Valid. exact HA.
   - exact (rewrite_phrase_valid p (RWrap s lbl) HV I HA).
   - exact (adddecl_valid p s x k HV HA).
+  - (* RAddLocal: the added declaration overloads an outer designator; `applicable` re-runs the reference *)
+    unfold applicable in HA. apply andb_true_iff in HA. destruct HA as [_ HA].
+    apply andb_true_iff in HA. destruct HA as [_ HA].
+    apply valid_b_Valid. exact HA.
 Qed.
 
 Theorem rewrites_valid : forall rs p, Valid p -> applicable_all rs p = true -> Valid (apply_rewrites rs p).
